@@ -13,8 +13,54 @@
 #[path = "../filter_gen.rs"]
 mod filter_gen;
 use filter_gen::*;
+use redirectionio::api::{BodyFilter, HTMLBodyFilter};
+use redirectionio::filter::FilterBodyAction;
 use rio_harness::*;
 use serde_json::{json, Value};
+
+/// The OPTIONAL fields of `HTMLBodyFilter` ride on the filter objects of the case as extra keys that only this binary
+/// reads: "inner": null | string (`inner_value`, trace text only — the bytes inserted must always be `value`),
+/// "id": null | string, "hash": null | string (`target_hash`).  The Lean driver and `filter_gen::parse_filters`
+/// ignore them: model and reference edit use `value` only.
+fn real_filters(case: &Value) -> Option<Vec<BodyFilter>> {
+    let mut out = Vec::new();
+    for f in case.get("filters")?.as_array()? {
+        if f.get("k")?.as_str()? != "html" {
+            return None;
+        }
+        let opt = |k: &str| -> Option<String> {
+            match f.get(k) {
+                None | Some(Value::Null) => None,
+                Some(v) => v.as_str().map(|s| s.to_string()),
+            }
+        };
+        let mut path = Vec::new();
+        for p in f.get("path")?.as_array()? {
+            path.push(p.as_str()?.to_string());
+        }
+        out.push(BodyFilter::HTML(HTMLBodyFilter {
+            action: f.get("action")?.as_str()?.to_string(),
+            value: f.get("value")?.as_str()?.to_string(),
+            inner_value: opt("inner"),
+            element_tree: path,
+            css_selector: opt("sel"),
+            // `id` defaults to Some("id") (what filter_gen uses) when the key is absent, None when it is null
+            id: if f.get("id").is_none() { Some("id".to_string()) } else { opt("id") },
+            target_hash: opt("hash"),
+        }));
+    }
+    Some(out)
+}
+
+/// run the REAL chain on one chunk: (filter output ++ end output, entered the error state?)
+fn run_real(filters: Vec<BodyFilter>, input: &[u8]) -> (Vec<u8>, bool) {
+    let mut chain = FilterBodyAction::new(filters, &[]);
+    let mut out = chain.filter(input.to_vec(), None);
+    let mut err = chain.verif_in_error();
+    out.extend(chain.end(None));
+    err = err || chain.verif_in_error();
+    (out, err)
+}
 
 #[derive(Clone, Debug)]
 enum Node {
@@ -590,7 +636,14 @@ fn gen_exhaustive(emit: &mut dyn FnMut(Value)) {
                         if in_domain(&doc, &f).is_err() {
                             continue;
                         }
-                        emit(json!({"doc": doc.iter().map(node_json).collect::<Vec<_>>(), "filters": [f.to_json()], "exh": true}));
+                        let mut fj = f.to_json();
+                        // inner_value different from value on two thirds of the cases, id / target_hash varied
+                        match idx % 3 {
+                            0 => {}
+                            1 => { fj["inner"] = json!("<u>INNER</u>"); fj["id"] = Value::Null; }
+                            _ => { fj["inner"] = json!(""); fj["hash"] = json!("h"); }
+                        }
+                        emit(json!({"doc": doc.iter().map(node_json).collect::<Vec<_>>(), "filters": [fj], "exh": true}));
                     }
                 }
             }
@@ -615,6 +668,7 @@ fn gen(args: &Args, emit: &mut dyn FnMut(Value)) {
         };
         let mut cur = doc.clone();
         let mut fs = Vec::new();
+        let mut fjs: Vec<Value> = Vec::new();
         let mut ok = true;
         for i in 0..nf {
             let cands = candidate_paths(&cur);
@@ -643,19 +697,43 @@ fn gen(args: &Args, emit: &mut dyn FnMut(Value)) {
                 5 => Some("rio-never".to_string()),
                 _ => Some("x-mark".to_string()),
             };
-            let f = FSpec::Html { action: action.to_string(), path, sel, value: gen_value(&mut rng, i) };
+            let mut path = path;
+            // element_tree entries in upper / mixed case never match (tag names are lower-cased): a no-op
+            if rng.chance(1, 25) {
+                let k = rng.below(path.len());
+                path[k] = if rng.chance(1, 2) { path[k].to_uppercase() } else { let mut t = path[k].clone(); t[0..1].make_ascii_uppercase(); t };
+            }
+            let value = if rng.chance(1, 12) { String::new() } else { gen_value(&mut rng, i) };
+            let f = FSpec::Html { action: action.to_string(), path, sel, value: value.clone() };
             if in_domain(&cur, &f).is_err() {
                 ok = false;
                 break;
             }
             edit(&mut cur, &f);
+            // the optional fields: inner_value (different from value most of the time), id, target_hash
+            let mut fj = f.to_json();
+            fj["inner"] = match rng.below(6) {
+                0 => Value::Null,
+                1 => json!(value),
+                2 => json!(""),
+                3 => json!(format!("<inner-{i}>NOT THE VALUE</inner-{i}>")),
+                4 => json!(format!("{value}<!--inner-->")),
+                _ => json!(format!("INNER{i} \u{e9} <b>trace only</b>")),
+            };
+            fj["id"] = match rng.below(3) {
+                0 => Value::Null,
+                1 => json!("id"),
+                _ => json!(format!("unit-{i}")),
+            };
+            fj["hash"] = if rng.chance(1, 2) { Value::Null } else { json!(format!("hash-{i}")) };
             fs.push(f);
+            fjs.push(fj);
         }
         if !ok {
             continue;
         }
         made += 1;
-        emit(json!({"doc": doc.iter().map(node_json).collect::<Vec<_>>(), "filters": fs.iter().map(|f| f.to_json()).collect::<Vec<_>>()}));
+        emit(json!({"doc": doc.iter().map(node_json).collect::<Vec<_>>(), "filters": fjs}));
     }
 }
 
@@ -699,13 +777,27 @@ fn run(case: &Value) -> Obs {
     }
     let mut expect = String::new();
     serialize(&cur, &mut expect);
-    let r = run_chain(&fs, &[], &[input.clone().into_bytes()]);
-    let out = r.concat();
+    let real = match real_filters(case) {
+        Some(f) => f,
+        None => return Obs::invalid("filters (optional fields)"),
+    };
+    let (out, in_error) = run_real(real, input.as_bytes());
     let mut o = Obs::new(json!(hex(&out))).trivial(acted == 0);
     o.tags.push(format!("filters:{}", fs.len()));
     o.tags.push(format!("acted:{acted}"));
+    if let Some(arr) = case.get("filters").and_then(|f| f.as_array()) {
+        for f in arr {
+            let inner = f.get("inner").and_then(|x| x.as_str());
+            let value = f.get("value").and_then(|x| x.as_str()).unwrap_or("");
+            o.tags.push(format!("inner:{}", match inner { None => "none", Some(x) if x == value => "same", Some(_) => "different" }));
+            if value.is_empty() { o.tags.push("value:empty".to_string()); }
+            if matches!(f.get("id"), Some(Value::Null)) { o.tags.push("id:none".to_string()); }
+            if f.get("hash").map(|h| h.is_string()).unwrap_or(false) { o.tags.push("hash:some".to_string()); }
+        }
+    }
     for f in &fs {
         if let FSpec::Html { action, path, sel, .. } = f {
+            if path.iter().any(|p| p.chars().any(|c| c.is_ascii_uppercase())) { o.tags.push("path:uppercase".to_string()); }
             o.tags.push(format!("act:{action}"));
             o.tags.push(format!("depth:{}", path.len()));
             o.tags.push(format!("sel:{}", match sel.as_deref() {
@@ -720,7 +812,7 @@ fn run(case: &Value) -> Obs {
             }
         }
     }
-    if r.err_at.is_some() {
+    if in_error {
         return o.fail("chain entered its error state on a well-formed document", "error-state");
     }
     if out != expect.as_bytes() {
